@@ -52,6 +52,11 @@ func genBehaviours(r *rng, wf *AWf, o engineOpts) map[string]Behaviour {
 			bh.Outcome = "hang"
 			bh.IgnoreCancel = r.chance(1, 3)
 		}
+		if o.cancelAfterMs >= 0 && r.chance(1, 4) {
+			// runs that the caller cancels: a deployment that is still going on at that moment and completes anyway
+			bh.DeployDelayMs = 20 + r.intn(80)
+			bh.DeployIgnoresCtx = true
+		}
 		if r.chance(1, 4) {
 			bh.Data = map[string]any{"b": r.chance(1, 2)}
 		}
